@@ -170,7 +170,24 @@ def _run_variant(args):
 
 def run_selftest(prop, mod, program, rep):
     rid = prop + ".selftest"
-    variants = list(mod.selftest) + corpus_variants(prop)
+    # corpus variants that cannot matter for this property are left out: a patch is relevant when it touches a file in
+    # which this property's baseline run discharged (or failed) an obligation
+    files = set()
+    for o in list(rep.obligations) + list(rep.violations):
+        loc = o.get("loc") or ""
+        if loc.startswith("src/waitress/"):
+            files.add(loc.split(":")[0])
+    corpus = corpus_variants(prop)
+    if files:
+        import re as _re
+        kept = []
+        for v in corpus:
+            touched = set(_re.findall(r"^\+\+\+ b/(\S+)", v.patches[0][1], _re.M))
+            if touched & files or v.name.startswith("seed:"):
+                kept.append(v)
+        rep.note("corpus_variants", {"available": len(corpus), "relevant": len(kept), "files": sorted(files)})
+        corpus = kept
+    variants = list(mod.selftest) + corpus
     rep.rule(rid, "checker self-test: mutants must add a violation, benign twins must not change the verdict")
     base_vio = {(v["rule"], v["key"]) for v in rep.violations}
     jobs = []
